@@ -23,7 +23,7 @@ type params struct {
 	Stride int    `json:"stride,omitempty"`
 }
 
-func hasWrite(op string) bool { return op != "SetSent" }
+func hasWrite(op string) bool { return !strings.HasPrefix(op, "SetSent") }
 
 // plannedSize is an upper bound of the size of the file the operation writes (used only to cut the
 // prefix range into cases; the real size is taken from the recording at run time).
